@@ -37,7 +37,8 @@ Example C08_binds_order_parallel_ex :
   scope (nd k13_post 15%nat) = Some 6%nat /\ consistent k13_post = true /\
   k13_evs = take 19 k13_evs ++ EvBindFn 6 0 (Some 17%nat) :: [] ++ EvInvoked 15 [20] 10 :: drop 21 k13_evs.
 Proof.
-  split; [exact k13_pre_hyps|]. destruct k13_pass as (A & B & C & D). repeat split; assumption.
+  split; [exact k13_pre_hyps|]. destruct k13_pass as (A & B & C & D).
+  split; [exact A|]. split; [exact B|]. split; [exact C|]. split; [exact D|]. vm_compute. reflexivity.
 Qed.
 
 Example C08_binds_order_parallel_serial_ex :
